@@ -186,26 +186,44 @@ def _big_stack():
 
 
 def run_lines(binary, lines, shards=16, timeout=3000, env=None):
-    """Feed protocol lines to a line-by-line filter, sharded over processes; returns outputs."""
+    """Feed protocol lines to a line-by-line filter, sharded over processes; returns outputs.
+    A process that dies in the middle of its share (abort, stack overflow, a kill by the allocator)
+    does not take the run down: the line it died on is answered CRASH(rc=..) — an observation like
+    any other — and a fresh process continues with the lines after it."""
     if not lines:
         return []
+    import threading
     n = min(shards, max(1, len(lines) // 200))
     chunks = [lines[i::n] for i in range(n)]
-    procs = []
-    for ch in chunks:
-        p = subprocess.Popen([binary], stdin=subprocess.PIPE, stdout=subprocess.PIPE,
-                             stderr=subprocess.DEVNULL, text=True, env=env or ENV, preexec_fn=_big_stack)
-        procs.append(p)
-    outs = []
-    # write & read via communicate in threads to avoid pipe deadlock
-    import threading
     results = [None] * n
 
     def work(i):
-        o, _ = procs[i].communicate("\n".join(chunks[i]) + "\n", timeout=timeout)
-        results[i] = o.split("\n")
-        if results[i] and results[i][-1] == "":
-            results[i].pop()
+        todo = list(chunks[i])
+        got = []
+        restarts = 0
+        while todo:
+            p = subprocess.Popen([binary], stdin=subprocess.PIPE, stdout=subprocess.PIPE,
+                                 stderr=subprocess.DEVNULL, text=True, env=env or ENV, preexec_fn=_big_stack)
+            try:
+                o, _ = p.communicate("\n".join(todo) + "\n", timeout=timeout)
+            except subprocess.TimeoutExpired:
+                p.kill()
+                o, _ = p.communicate()
+            r = o.split("\n")
+            if r and r[-1] == "":
+                r.pop()
+            r = r[:len(todo)]
+            got += r
+            if len(r) >= len(todo):
+                break
+            # died on line number len(r) of this share
+            restarts += 1
+            if restarts > 20:
+                got += ["NO-OUTPUT(rc=%s)" % p.returncode] * (len(todo) - len(r))
+                break
+            got.append("CRASH(rc=%s)" % p.returncode)
+            todo = todo[len(r) + 1:]
+        results[i] = got
 
     ts = [threading.Thread(target=work, args=(i,)) for i in range(n)]
     for t in ts:
@@ -216,7 +234,7 @@ def run_lines(binary, lines, shards=16, timeout=3000, env=None):
     for i in range(n):
         r = results[i] or []
         for j, idx in enumerate(range(i, len(lines), n)):
-            out[idx] = r[j] if j < len(r) else "NO-OUTPUT(rc=%s)" % procs[i].returncode
+            out[idx] = r[j] if j < len(r) else "NO-OUTPUT(rc=?)"
     return out
 
 
